@@ -225,13 +225,14 @@ func (e *SpecEnv) eval(s *SExpr) SVal {
 			// equivalent reformulation that spares the solver the search for a witness:
 			// (exists i. B) == B[c1] || ... || B[cn] || (exists i. B) for any terms c;
 			// candidates are the integer locals of the current state
-			if _, sort := e.resolveType(s.Vars[0].Type); sort == SInt {
+			if _, sort := e.resolveType(s.Vars[0].Type); sort == SInt || sort == SStr {
 				alts := []Term{}
 				seen := map[string]bool{}
 				var keys []*ssa.Alloc
 				for k, v := range e.cur.cells {
 					if al, ok := k.(*ssa.Alloc); ok {
-						if t, ok := v.(Term); ok && t.Sort == SInt && isInteger(al.Type().Underlying().(*types.Pointer).Elem()) {
+						et := al.Type().Underlying().(*types.Pointer).Elem()
+						if t, ok := v.(Term); ok && t.Sort == sort && ((sort == SInt && isInteger(et)) || (sort == SStr && isString(et))) {
 							keys = append(keys, al)
 						}
 					}
@@ -239,12 +240,20 @@ func (e *SpecEnv) eval(s *SExpr) SVal {
 				gosort.Slice(keys, func(i, j int) bool { return keys[i].Pos() < keys[j].Pos() })
 				for _, al := range keys {
 					t := e.cur.cells[al].(Term)
-					for _, c := range []Term{t, Add(t, IntLit(1)), Sub(t, IntLit(1))} {
+					cands := []Term{t}
+					if sort == SInt {
+						cands = []Term{t, Add(t, IntLit(1)), Sub(t, IntLit(1))}
+					}
+					for _, c := range cands {
 						if seen[c.S] || len(alts) >= 9 {
 							continue
 						}
 						seen[c.S] = true
-						inst := e.with(map[string]SVal{s.Vars[0].Name: {c, intT}}).eval(s.Args[0])
+						ct := types.Type(intT)
+						if sort == SStr {
+							ct = stringT
+						}
+						inst := e.with(map[string]SVal{s.Vars[0].Name: {c, ct}}).eval(s.Args[0])
 						alts = append(alts, inst.T)
 					}
 				}
@@ -661,6 +670,14 @@ func (e *SpecEnv) resolveType(ts string) (types.Type, string) {
 		return stringT, SStr
 	case "float64", "real":
 		return floatT, SReal
+	case "float32":
+		return types.Typ[types.Float32], SReal
+	case "uint32":
+		return types.Typ[types.Uint32], SInt
+	case "byte", "uint8":
+		return types.Typ[types.Uint8], SInt
+	case "rune", "int32":
+		return types.Typ[types.Int32], SInt
 	case "bool":
 		return boolT, SBool
 	case "int64":
